@@ -149,3 +149,145 @@ pub fn gen_offset(rng: &mut crate::core::Rng) -> i32 {
         _ => rng.range_i64(-86_399, 86_399) as i32,
     }
 }
+
+// ------------------------------------------------------------------------------------------------
+// Differential observation (keeps one property's verdict independent of defects in the read-out or
+// construction routes that other properties own): a result is never compared with the model
+// directly but with an *independently constructed* value of the expected instant, both read through
+// the same routes; and a case is only judged when its inputs and its expected value are "sane", i.e.
+// every route agrees with the model there.
+// ------------------------------------------------------------------------------------------------
+
+/// Everything the public API says about one DateTime.
+#[derive(Clone, Debug, PartialEq)]
+pub struct Obs {
+    /// nanos_since(0001-01-01T00:00Z)
+    pub ns_since: i128,
+    /// timestamp() and nano() of the offset-free copy
+    pub via_ts: i128,
+    pub off: Option<i32>,
+    /// as_ymdhms(): UTC fields
+    pub utc: (i32, u32, u32, u32, u32, u32),
+    /// local getters: year month day day_of_year weekday hour minute second milli micro nano
+    /// (None when the local time is within a day of the range ends, where getters may legitimately panic)
+    pub local: Option<(i64, u32, u32, u32, u32, u32, u32, u32, u32, u32, u32)>,
+}
+
+fn local_ok(i: i128, off: i32) -> bool {
+    let l = i + off as i128 * NS;
+    l > MIN_INSTANT + D && l < MAX_INSTANT - D && i > MIN_INSTANT + D && i < MAX_INSTANT - D
+}
+
+/// Reads a value through every route. `with_local` must be decided from the *model* (local_ok of
+/// the instant the value is supposed to have). May panic — call inside `trap`.
+pub fn observe(dt: &DateTime, with_local: bool) -> Obs {
+    Obs {
+        ns_since: read(dt),
+        via_ts: read_via_timestamp(&dt.set_offset(Offset::Fixed(0))),
+        off: offset_secs(dt),
+        utc: dt.as_ymdhms(),
+        local: if with_local {
+            Some((dt.year() as i64, dt.month(), dt.day(), dt.day_of_year(), dt.weekday() as u32, dt.hour(), dt.minute(), dt.second(), dt.milli(), dt.micro(), dt.nano()))
+        } else {
+            None
+        },
+    }
+}
+
+/// What the model says every route should show for instant `i` carrying offset `off`.
+pub fn model_observe(i: i128, off: i32) -> Obs {
+    let u = fields(i);
+    let with_local = local_ok(i, off);
+    let l = fields(i + off as i128 * NS);
+    Obs {
+        ns_since: i,
+        via_ts: i,
+        off: Some(off),
+        utc: (u.year as i32, u.month, u.dom, u.hour, u.minute, u.second),
+        local: if with_local {
+            Some((l.year, l.month, l.dom, cal::day_of_year(l.day), cal::weekday_sun0(l.day), l.hour, l.minute, l.second, l.subsec / 1_000_000, l.subsec / 1_000, l.subsec))
+        } else {
+            None
+        },
+    }
+}
+
+/// Builds the value for (instant, offset) through the public API and returns it only if every
+/// read-out route agrees with the model there ("sane": construction and read-outs are trustworthy
+/// at this point). `ignore_ns_since`: for the property that owns `*_since`.
+pub fn sane_value_opt(i: i128, off: i32, ignore_ns_since: bool) -> Option<(DateTime, Obs)> {
+    if !representable(i) {
+        return None;
+    }
+    let with_local = local_ok(i, off);
+    let l = i + off as i128 * NS;
+    if !representable(l) {
+        return None;
+    }
+    let r = crate::core::trap(|| {
+        let dt = mk_off(i, off);
+        let o = observe(&dt, with_local);
+        (dt, o)
+    });
+    match r {
+        Ok((dt, o)) => {
+            let mut m = model_observe(i, off);
+            let mut oo = o.clone();
+            if ignore_ns_since {
+                m.ns_since = 0;
+                oo.ns_since = 0;
+            }
+            if oo == m {
+                Some((dt, o))
+            } else {
+                None
+            }
+        }
+        Err(_) => None,
+    }
+}
+
+pub fn sane_value(i: i128, off: i32) -> Option<(DateTime, Obs)> {
+    sane_value_opt(i, off, false)
+}
+
+/// Outcome of comparing a result with the independently constructed expected value.
+pub enum Diff {
+    /// the expected value could not be constructed/read sanely here: no verdict
+    Skip,
+    Same,
+    /// (observed, expected)
+    Differs(Box<Obs>, Box<Obs>),
+}
+
+/// Compares `res` (already produced by the operation under judgement) with an independently
+/// built value of (target, off), through the same routes. Call inside `trap` is not needed: traps itself.
+pub fn diff_with_expected(res: &DateTime, target: i128, off: i32) -> Result<Diff, crate::core::Panic> {
+    let exp = match sane_value(target, off) {
+        Some((_, e)) => e,
+        None => return Ok(Diff::Skip),
+    };
+    let with_local = exp.local.is_some();
+    let got = crate::core::trap(|| observe(res, with_local))?;
+    Ok(if got == exp { Diff::Same } else { Diff::Differs(Box::new(got), Box::new(exp)) })
+}
+
+impl Obs {
+    pub fn to_json(&self) -> serde_json::Value {
+        serde_json::json!({"nanos_since": show(self.ns_since), "timestamp+nano": show(self.via_ts), "offset": self.off, "as_ymdhms": format!("{:?}", self.utc), "getters(y,m,d,doy,wd,h,mi,s,ms,us,ns)": self.local.map(|l| format!("{:?}", l))})
+    }
+    /// Which aspect differs first (for signatures).
+    pub fn first_difference(&self, exp: &Obs) -> &'static str {
+        if self.ns_since != exp.ns_since {
+            "wrong-instant"
+        } else if self.off != exp.off {
+            "offset-changed"
+        } else if self.via_ts != exp.via_ts {
+            "timestamp-readout-differs"
+        } else if self.utc != exp.utc {
+            "utc-fields-differ"
+        } else {
+            "local-getters-differ"
+        }
+    }
+}
